@@ -1,15 +1,19 @@
 """C19 -- comparisons and membership tests match CPython.
 
-spec/Compare.tla: four families of cases, each a TLC behaviour whose final state carries the expected
+spec/Compare.tla: six families of cases, each a TLC behaviour whose final state carries the expected
 observation: comparison chains (left-to-right, at most once, stop at the first link that is not true,
-value of the last link), membership in tuple/list/set/dict displays (hash, then identity-or-equality;
-FlattenInListTransform transcribed next to it), membership in str/bytes literals, and if/elif chains
-with SwitchTransform transcribed (keys of has_duplicate_values vs. the C values of the labels).
+value of the last link), pairs over a wide value table, membership in tuple/list/set/dict displays
+(hash, then identity-or-equality; FlattenInListTransform transcribed next to it), membership in
+str/bytes literals, if/elif chains with SwitchTransform transcribed (keys of has_duplicate_values vs.
+the C values of the labels), and boolean combinations (and / or / not) of == / != / in / not in tests of
+one C-integer subject as expression, conditional expression, while test and if/elif conditions, with
+SwitchTransform.extract_conditions transcribed (SwitchSound: a switch has the truth table of the
+expression it replaces, over the whole 8-bit image of the subject type).
 Binding B1: every published case is executed three ways -- S (TLC), P (CPython on the same source
 without the C declarations), C (module compiled from the snapshot; operands typed object / int /
-double / str / bytes, subjects int / long / unsigned char / enum / Py_UCS4 / object, value and
-boolean contexts, optimize.use_switch on and off).  S != P is spec drift (exit 2), C != S a violation.
-B3 (reported only): which generated functions really contain a C switch.
+double / str / bytes, subjects int / long / unsigned char / signed char / unsigned int / enum / Py_UCS4 /
+object, value and boolean contexts, optimize.use_switch on and off).  S != P is spec drift (exit 2),
+C != S a violation.  B3 (reported only): which generated functions really contain a C switch.
 """
 import concurrent.futures
 import json
@@ -90,7 +94,7 @@ def compare(shape, rec, want, got):
         out.append(("result", oc))
     if wl != gl:
         oc = "wrong-log"
-        if shape["part"] == "member" and shape["form"] == "leaf" and gl == "".join(map(str, rec["ilog"])):
+        if shape["part"] == "member" and shape["form"] == "leaf" and gl == "".join(map(str, list(range(1, rec["n"])) + [0])):
             oc = "members-before-x"
         elif continued:
             oc = "continued-past-raising-link" if wr.startswith("E:") else "continued-past-false-link"
@@ -126,6 +130,50 @@ def descriptor(shape, rec):
             "highbyte": rec["x"]["k"] == "int" and rec["x"]["v"] >= 128 and rec["x"]["v"] in shape["cs"] and len(set(shape["cs"])) >= 2}
 
 
+def bool_counts(quick):
+    """number of cases Compare.tla's InitBool enumerates per family (N2, N3, N4, NS, NB as in the spec)"""
+    n2, n3, n4, ns, nb = (10, 5, 4, 7, 3) if quick else (17, 9, 6, 12, 6)
+    e2 = 5 * 2 * n2 * n2
+    simple = ns + 2 * nb * nb
+    return e2 + 16 * n3 ** 3 + 8 * n4 ** 4 + e2 + simple ** 2 + (0 if quick else (5 + 2 * 9) ** 3)
+
+
+def bool_class(c):
+    return "%s.%s.%s%s%s" % (c["ctx"], "top" if c["top"] else ("inner" if c["any"] else "none"), len(c["conds"]),
+                             ".hz" if c["hz"]["s"] else "", ".raises" if c["rz"]["s"] else "")
+
+
+def bool_pick(cases, n, rng):
+    """stratified sample: every class (where the model builds switches, predicted hazard, raising subjects) is represented"""
+    buckets = {}
+    for c in cases:
+        buckets.setdefault(bool_class(c), []).append(c)
+    floor = max(2, n // (2 * max(1, len(buckets))))
+    pick, rest = [], []
+    for key in sorted(buckets):
+        b = buckets[key]
+        rng.shuffle(b)
+        pick += b[:floor]
+        rest += b[floor:]
+    if len(pick) < n:
+        pick += rng.sample(rest, min(len(rest), n - len(pick)))
+    return pick
+
+
+def bool_expect(f):
+    """S: expected observation for every value of the subject image; and what the transcribed transform predicts"""
+    c = f["case"]
+    dom = lc.bool_dom(c["fam"])
+    tok = lc.bool_tokens(f["rctx"], f["els"])
+    rz = lc.iv_set(c["rz"])
+    sel = lc.bool_rows(c["rows"], dom)
+    f["dom"], f["rz"], f["hzset"] = dom, rz, lc.iv_set(c["hz"])
+    f["exp"] = ["E:ValueError" if x in rz else tok(sel[x]) for x in dom]
+    for mode in ("on", "off"):
+        isel = lc.bool_rows(c[mode], dom)
+        f["impl_" + mode] = [tok(isel[x]) for x in dom]
+
+
 def modules_of(funcs, prefix):
     """funcs: list of (name, pyx) -> list of (modname, [names], source)"""
     mods = []
@@ -136,7 +184,7 @@ def modules_of(funcs, prefix):
 
 
 def run_module(build, calltable):
-    return calls.run_calls(build, calltable, prelude=lc.PRELUDE, timeout=900, tag="c19")
+    return calls.run_calls(build, calltable, prelude=lc.PRELUDE, timeout=2400, tag="c19")
 
 
 def run(tier, seed):
@@ -165,12 +213,12 @@ def run(tier, seed):
             elif part == "member":
                 allrecs.append({"part": part, "id": i, "kind": s["kind"], "neg": s["neg"], "xdom": s["xdom"], "mdoms": s["mdoms"]})
             else:
-                allrecs.append({"part": part, "id": i, "kind": s["kind"], "neg": s["neg"], "xdom": s["xdom"], "cs": s["cs"], "cint": s["cint"]})
+                allrecs.append({"part": part, "id": i, "kind": s["kind"], "neg": s["neg"], "xdom": s["xdom"], "cs": s["cs"], "cint": s["cint"], "sty": s["sty"]})
     files = {"shapes": os.path.join(wd, "shapes.ndjson"), "strict": os.path.join(wd, "shapes_strict.ndjson")}
     core.write_ndjson(files["shapes"], allrecs)
     # a small input for the strict configurations (which TLC must refute; thorough tier)
     core.write_ndjson(files["strict"], [{"part": "member", "id": 0, "kind": k, "neg": False, "xdom": lc.XM, "mdoms": [lc.MM]} for k in ("tuple", "set")] +
-                      [{"part": "strin", "id": 0, "kind": "bytes", "neg": False, "cs": [97], "cint": True, "xdom": [lc.xrec("int", v=v) for v in (97, 353)]}])
+                      [{"part": "strin", "id": 0, "kind": "bytes", "neg": False, "cs": [97], "cint": True, "sty": "int", "xdom": [lc.xrec("int", v=v) for v in (97, 353)]}])
 
     def ncases(part, s):
         n = 1
@@ -199,7 +247,7 @@ def run(tier, seed):
     cms_mods = cms_mods + sus_mods
 
     ex = concurrent.futures.ThreadPoolExecutor(max_workers=12)
-    tl_timeout = 1500 if quick else 6000
+    tl_timeout = 5400 if quick else 14400
 
     def tlc_part(part, cfg, workers, shapes_file=None, delay=0.0):
         time.sleep(delay)
@@ -211,12 +259,17 @@ def run(tier, seed):
         return core.tlc("Compare", cfg=cfg, workers=workers, env={"SHAPES": shapes_file or ""}, timeout=tl_timeout,
                         heap=None if quick else "12g")
     fut = {"switch": ex.submit(tlc_part, "switch", "Compare_switch3" if quick else "Compare_switch4", 4),
-           "shapes": ex.submit(tlc_part, "shapes", "Compare_shapes", max(4, core.NCPU - 6), files["shapes"], 0.2)}
-    strict = {"flatten": "FlattenStrict", "order": "FlattenOrderStrict", "strin": "StrinStrict", "switch": "SwitchStrict"}
+           "bool": ex.submit(tlc_part, "bool", "Compare_bool_q" if quick else "Compare_bool_t", 6, None, 0.1),
+           "shapes": ex.submit(tlc_part, "shapes", "Compare_shapes", max(4, core.NCPU - 8), files["shapes"], 0.2)}
+    # invariants that TLC must refute: the model exhibits the open deviations (set display not hashed, no ValueError for
+    # a C integer outside range(256), negative label on an unsigned subject), and SwitchSound does not hold for the
+    # transcription of extract_conditions as it was before e6ec21370
+    strict = {"flatten": "FlattenStrict", "strin": "StrinStrict", "wrap": "BoolStrict", "andmerge": "SwitchSound"}
     if not quick:
         for i, key in enumerate(strict):
-            fut["strict_" + key] = ex.submit(tlc_part, "strict", "Compare_strict_" + key, 1, files["strict"], 0.4 + i / 10.0)
-    fbuild_cms = ex.submit(core.build_many, [core.BuildSpec(n, src, cc="clang") for n, _, src in cms_mods], os.path.join(wd, "b_cms"), 8, 3000)
+            fut["strict_" + key] = ex.submit(tlc_part, "strict", "Compare_strict_" + key, 1 if key in ("flatten", "strin") else 2,
+                                             files["strict"], 0.4 + i / 10.0)
+    fbuild_cms = ex.submit(core.build_many, [core.BuildSpec(n, src, cc="clang") for n, _, src in cms_mods], os.path.join(wd, "b_cms"), 8, 6000)
 
     # ------------------------------------------------------------------ switch family: TLC first, then render
     r = fut["switch"].result()
@@ -227,8 +280,12 @@ def run(tier, seed):
     nsw_want = 2 * 2 * sum(16 ** n for n in range(1, (3 if quick else 4) + 1))
     if len(swcases) != nsw_want:
         core.die("Compare/switch published %d cases, expected %d" % (len(swcases), nsw_want))
-    by_fam = {"bytes": [c for c in swcases if c["fam"] == "bytes" and not c["hz"]], "ustr": [c for c in swcases if c["fam"] == "ustr" and not c["hz"]]}
-    hazards = [c for c in swcases if c["hz"]]
+    if any(c["hz"] for c in swcases):
+        core.die("Compare/switch: the model predicts a chain that is not a C program")
+    # chains in which an `==` arm and an `in b".."` arm share a value (they used to become switches with duplicate
+    # labels, 079bc99c5) go into modules of their own: a regression must not take the other functions down
+    by_fam = {"bytes": [c for c in swcases if c["fam"] == "bytes" and not c["mix"]], "ustr": [c for c in swcases if c["fam"] == "ustr"]}
+    hazards = [c for c in swcases if c["mix"]]
     per_typing = 50 if quick else 300
     swfuncs = []    # dicts: name, case, typing, kind ('chain'|'expr'), neg, ectx, pyx, py
     k = 0
@@ -252,9 +309,10 @@ def run(tier, seed):
                         k += 1
                         pyx, py = lc.render_swexpr(c, typing, name, random.Random("%s/%s" % (seed, name)), neg, ec)
                         swfuncs.append({"name": name, "case": c, "typing": typing, "kind": "expr", "neg": neg, "ectx": ec, "pyx": pyx, "py": py})
-    # model-predicted hazards: each in a module of its own (the module is not a C program if the model is right)
+    # mixed chains: a sample together in one group of modules, some of them also in a module of their own
     hzfuncs = []
-    hz_pick = rng.sample(hazards, min(len(hazards), 2 if quick else 8))
+    hz_pick = rng.sample(hazards, min(len(hazards), 40 if quick else 240))
+    n_own = 2 if quick else 8
     for i, c in enumerate(hz_pick):
         typing = ("int", "uchar", "long")[i % 3]
         name = "w%d" % k
@@ -267,12 +325,54 @@ def run(tier, seed):
     sw_mods = modules_of([(f["name"], f["pyx"]) for f in swfuncs], "c19s")
     # the same functions with optimize.use_switch=False; the hazard chains must work there
     nosw_mods = modules_of([(f["name"], f["pyx"]) for f in swfuncs + hzfuncs], "c19n")
-    hz_mods = [("c19h%d" % i, [f["name"]], lc.HEADER_PYX + f["pyx"]) for i, f in enumerate(hzfuncs)]
+    hz_mods = [("c19h%d" % i, [f["name"]], lc.HEADER_PYX + f["pyx"]) for i, f in enumerate(hzfuncs[:n_own])] + \
+              modules_of([(f["name"], f["pyx"]) for f in hzfuncs[n_own:]], "c19m")
     specs = [core.BuildSpec(n, src, cc="clang") for n, _, src in sw_mods] + \
             [core.BuildSpec(n, src, cc="clang", directives={"optimize.use_switch": False}) for n, _, src in nosw_mods] + \
             [core.BuildSpec(n, src, cc="clang") for n, _, src in hz_mods]
-    fbuild_sw = ex.submit(core.build_many, specs, os.path.join(wd, "b_sw"), 8, 3000)
+    fbuild_sw = ex.submit(core.build_many, specs, os.path.join(wd, "b_sw"), 8, 6000)
     mark("switch_rendered")
+
+    # ------------------------------------------------------------------ bool family: TLC, then pick and render
+    r = fut["bool"].result()
+    if not r.ok:
+        core.die("TLC Compare/bool failed: %s\n%s" % (r.violation or r.rc, "\n".join(ln for ln in r.out.splitlines() if not ln.startswith('"@@'))[-3000:]))
+    cov["tlc"].append(dict(r.summary(), config="bool"))
+    bcases = r.printed
+    r.out, r.printed = "", []
+    if len(bcases) != 4 * bool_counts(quick):
+        core.die("Compare/bool published %d cases, expected %d" % (len(bcases), 4 * bool_counts(quick)))
+    bfuncs = []
+    bk = 0
+    n_expr, n_stmt = (110, 50) if quick else (400, 200)
+    for fam, typings in lc.BOOL_TYPINGS.items():
+        for typing in typings:
+            pool = [c for c in bcases if c["fam"] == fam and not (typing == "enum" and lc.bool_has_str(c))]
+            scale = 5 if typing == "obj" else 1
+            for ctx, n in (("expr", n_expr // scale), ("stmt", n_stmt // scale)):
+                for i, c in enumerate(bool_pick([c for c in pool if c["ctx"] == ctx], n, rng)):
+                    name = "b%d" % bk
+                    bk += 1
+                    frng = random.Random("%s/%s" % (seed, name))
+                    f = {"name": name, "case": c, "typing": typing, "rctx": lc.BOOL_CTX[ctx][i % len(lc.BOOL_CTX[ctx])], "els": frng.random() < 0.5}
+                    f["pyx"], f["py"] = lc.render_bool(c, typing, f["rctx"], name, frng, f["els"])
+                    bool_expect(f)
+                    bfuncs.append(f)
+    bool_classes = {}
+    for c in bcases:
+        for key in ("bool." + bool_class(c), "bool.fam." + c["fam"]):
+            bool_classes[key] = bool_classes.get(key, 0) + 1
+    n_bcases = len(bcases)
+    del bcases
+    for f in bfuncs:
+        pysrc.append(f["py"])
+    rng.shuffle(bfuncs)
+    bon_mods = modules_of([(f["name"], f["pyx"]) for f in bfuncs], "c19b")
+    boff_mods = modules_of([(f["name"], f["pyx"]) for f in bfuncs], "c19c")
+    fbuild_bool = ex.submit(core.build_many, [core.BuildSpec(n, src, cc="clang") for n, _, src in bon_mods] +
+                            [core.BuildSpec(n, src, cc="clang", directives={"optimize.use_switch": False}) for n, _, src in boff_mods],
+                            os.path.join(wd, "b_bool"), 6, 6000)
+    mark("bool_rendered")
 
     # ------------------------------------------------------------------ the other TLC runs
     r = fut["shapes"].result()
@@ -318,13 +418,19 @@ def run(tier, seed):
     for c in swcases:
         cnt("switch.%s.%s" % ("sw" if c["sw"] else "nosw", "hz" if c["hz"] else "ok"))
         cnt("switch.arms%d" % len(c["arms"]))
+        if c["mix"]:
+            cnt("switch.mix")
+    classes.update(bool_classes)
     needed = ["chain.out." + o for o in ("True", "False", "r0", "r2", "re", "rx", "E:TypeError", "E:ValueError")] + \
              ["chain.stopped_early", "chain.ran_to_end", "chain.links1", "chain.links2", "chain.links3",
               "pair.out.True", "pair.out.False", "pair.out.E:TypeError", "pair.out.E:ValueError", "pair.out.r0", "pair.float.int", "pair.int.int",
               "pair.str.str", "pair.bytes.bytes", "pair.bytearray.bytes", "pair.float.nan", "pair.W.int",
               "member.out.True", "member.out.False", "member.out.E:TypeError", "member.why.identity", "member.why.unhashable", "member.why.none",
               "member.hz", "strin.out.True", "strin.out.False", "strin.out.E:TypeError", "strin.out.E:ValueError", "strin.hz",
-              "switch.sw.ok", "switch.nosw.ok", "switch.sw.hz", "switch.arms1", "switch.arms3"]
+              "switch.sw.ok", "switch.nosw.ok", "switch.mix", "switch.arms1", "switch.arms3",
+              "bool.expr.top.1", "bool.expr.inner.1", "bool.expr.none.1", "bool.expr.top.1.hz", "bool.expr.inner.1.raises",
+              "bool.stmt.top.1", "bool.stmt.top.2", "bool.stmt.inner.2", "bool.stmt.none.2", "bool.stmt.top.2.hz",
+              "bool.fam.int", "bool.fam.uchar", "bool.fam.uint", "bool.fam.ucs4"]
     missing = [n for n in needed if not classes.get(n)]
     if missing:
         core.die("vacuous model: no case of class(es) %s" % missing)
@@ -373,6 +479,15 @@ def run(tier, seed):
         if pobs != exp:
             n_drift += 1
             rep.spec_drift("Compare.tla switch row vs CPython", {"function": f["name"], "source": f["py"], "spec": exp, "cpython": pobs})
+
+    for f in bfuncs:
+        fam = f["case"]["fam"]
+        pobs = pns["RX"](f["name"], [lc.bool_subject(fam, x) for x in f["dom"]])
+        if pobs != f["exp"]:
+            n_drift += 1
+            if n_drift <= 20:
+                rep.spec_drift("Compare.tla bool rows vs CPython", {"function": f["name"], "source": f["py"],
+                                                                   "first": [(x, e, p) for x, e, p in zip(f["dom"], f["exp"], pobs) if e != p][:4]})
 
     # ------------------------------------------------------------------ C: compiled modules
     stats = {"functions": 0, "cases": 0, "mismatches": 0, "crashed_functions": 0}
@@ -424,9 +539,9 @@ def run(tier, seed):
         if not b.ok:
             if mode == "hz":
                 f = fdict[names[0]]
-                build_failed(b, "hazard chain", True, {"typing": f["typing"], "fam": f["case"]["fam"],
+                build_failed(b, "mixed chain", True, {"typing": f["typing"], "fam": f["case"]["fam"],
                                                        "duplicate_case_reported": "duplicate case" in b.errors})
-                samples.append({"part": "switch-hazard", "source": f["pyx"], "build": "failed", "error": [ln for ln in b.errors.splitlines() if "error" in ln][:1]})
+                samples.append({"part": "switch-mixed", "source": f["pyx"], "build": "failed", "error": [ln for ln in b.errors.splitlines() if "error" in ln][:1]})
             else:
                 build_failed(b, "switch module use_switch=%s" % (mode == "sw"))
             continue
@@ -449,7 +564,39 @@ def run(tier, seed):
         table = [["RX", [name, [lc.subject_arg(fdict[name]["case"]["fam"], fdict[name]["typing"], x) for x in lc.SUBJECTS]]] for name in names]
         swjobs.append((b, names, table, mode))
 
-    allobs = list(ex.map(lambda j: run_module(j[0], j[2]), jobs + swjobs))
+    builds_bool = fbuild_bool.result()
+    mark("builds_bool_done")
+    bjobs = []
+    bdict = {f["name"]: f for f in bfuncs}
+    b3b = {"model_switch_real_switch": 0, "model_switch_real_none": 0, "model_none_real_switch": 0, "model_none_real_none": 0,
+           "object_subject_with_switch": 0, "use_switch_off_with_switch": 0, "disagreeing": []}
+    for (mname, names, _), b in zip(bon_mods + boff_mods, builds_bool):
+        mode = "on" if mname.startswith("c19b") else "off"
+        if not b.ok:
+            build_failed(b, "bool module use_switch=%s" % (mode == "on"))
+            continue
+        try:
+            with open(b.c_file) as fh:
+                seen, with_sw = lc.bool_functions_with_switch(fh.read())
+        except OSError:
+            seen, with_sw = set(), set()
+        for name in names:
+            f = bdict[name]
+            if name not in seen:
+                continue
+            real = name in with_sw
+            if mode == "off":
+                b3b["use_switch_off_with_switch"] += real
+            elif f["typing"] == "obj":
+                b3b["object_subject_with_switch"] += real
+            else:
+                b3b["model_%s_real_%s" % ("switch" if f["case"]["any"] else "none", "switch" if real else "none")] += 1
+                if real != f["case"]["any"] and len(b3b["disagreeing"]) < 5:
+                    b3b["disagreeing"].append(f["pyx"])
+        table = [["RX", [name, [lc.bool_subject_arg(bdict[name]["case"]["fam"], x) for x in bdict[name]["dom"]]]] for name in names]
+        bjobs.append((b, names, table, mode))
+
+    allobs = list(ex.map(lambda j: run_module(j[0], j[2]), jobs + swjobs + bjobs))
     ex.shutdown()
     mark("compiled_runs_done")
 
@@ -475,7 +622,7 @@ def run(tier, seed):
                     d = descriptor(s, rec)
                     d["aspect"] = aspect
                     rep.disagree(d, oc, {"function": render[s["part"]](s, name)[0], "args": case_args(s, rec), "want": want, "got": got})
-    for (b, names, table, mode), obs in zip(swjobs, allobs[len(jobs):]):
+    for (b, names, table, mode), obs in zip(swjobs, allobs[len(jobs):len(jobs) + len(swjobs)]):
         for name, o in zip(names, obs):
             f = fdict[name]
             c = f["case"]
@@ -487,9 +634,34 @@ def run(tier, seed):
                         ok_pairs.append((want, got))
                     continue
                 stats["mismatches"] += 1
-                d = {"part": "switch", "fam": c["fam"], "typing": f["typing"], "narms": len(c["arms"]), "hz": c["hz"], "sw": c["sw"],
+                d = {"part": "switch", "fam": c["fam"], "typing": f["typing"], "narms": len(c["arms"]), "hz": c["hz"], "sw": c["sw"], "mix": c["mix"],
                      "use_switch": mode != "nosw", "kind": f["kind"], "ectx": f.get("ectx")}
                 rep.disagree(d, obs_class(want, got), {"function": f["pyx"], "x": x, "want": want, "got": got})
+    bool_nontriv = 0
+    for (b, names, table, mode), obs in zip(bjobs, allobs[len(jobs) + len(swjobs):]):
+        for name, o in zip(names, obs):
+            f = bdict[name]
+            c = f["case"]
+            stats["functions"] += 1
+            exp, impl, dom = f["exp"], f["impl_" + mode], f["dom"]
+            # non-trivial: subject values next to a change of the expected outcome
+            bool_nontriv += sum(1 for i in range(len(dom)) if (i > 0 and exp[i] != exp[i - 1]) or (i + 1 < len(dom) and exp[i] != exp[i + 1]))
+            for x, want, pred, got in zip(dom, exp, impl, unpack(o, len(dom))):
+                stats["cases"] += 1
+                if want == got:
+                    if len(ok_pairs) < 12000 and x % 16 == 1:
+                        ok_pairs.append((want, got))
+                    continue
+                stats["mismatches"] += 1
+                raises, hz = x in f["rz"], mode == "on" and x in f["hzset"]
+                d = {"part": "bool", "fam": c["fam"], "typing": f["typing"], "ctx": f["rctx"], "nconds": len(c["conds"]), "use_switch": mode == "on",
+                     "top": c["top"], "any": c["any"], "hz": hz, "raises": raises, "expected": "E:ValueError" if raises else "value"}
+                oc = obs_class(want, got)
+                if got == pred and raises:
+                    oc = "as-char-model"        # no range check on the C integer (KF-C19-4)
+                elif got == pred and hz:
+                    oc = "as-switch-model"      # the label wrapped
+                rep.disagree(d, oc, {"function": f["pyx"], "x": lc.bool_subject_arg(c["fam"], x), "image": x, "want": want, "got": got})
 
     # binding demonstration: corrupted expectations must be rejected by the comparison used above
     if len(ok_pairs) < 100:
@@ -510,6 +682,10 @@ def run(tier, seed):
         samples.append({"part": s["part"], "source": render[s["part"]](s, name)[0], "args": case_args(s, recs[i]), "expected": expected[name][i]})
     for f in rng.sample(swfuncs, 2):
         samples.append({"part": "switch", "typing": f["typing"], "source": f["pyx"], "subjects": lc.SUBJECTS, "expected": sw_expected[f["name"]]})
+    for f in rng.sample(bfuncs, 3):
+        xs = [x for x in f["dom"] if 95 <= x <= 102] + [f["dom"][0], f["dom"][-1]]
+        samples.append({"part": "bool", "typing": f["typing"], "source": f["pyx"], "subjects": [lc.bool_subject_arg(f["case"]["fam"], x) for x in xs],
+                        "expected": [f["exp"][f["dom"].index(x)] for x in xs]})
 
     # distinct (function, arguments) pairs executed on compiled code whose expected outcome is not the plain
     # "False" / "no arm selected" bulk: a true or non-bool result, an exception, or a selected arm
@@ -521,22 +697,28 @@ def run(tier, seed):
     for (b, names, table, mode) in swjobs:
         for name in names:
             nontriv += sum(1 for e in sw_expected[name] if e not in ("r0", "r-1", "rN", "False"))
+    nontriv += bool_nontriv
     tl = cov["tlc"]
     cov.update({
         "states": sum(t["states_generated"] for t in tl), "distinct_states": sum(t["distinct_states"] for t in tl),
         "transitions": sum(t["states_generated"] for t in tl),
         "traces_validated_against_impl": stats["cases"], "evaluations": stats["cases"], "distinct_nontrivial": nontriv,
-        "functions_compiled": stats["functions"], "modules": len(jobs) + len(swjobs), "mismatching_cases": stats["mismatches"],
+        "functions_compiled": stats["functions"], "modules": len(jobs) + len(swjobs) + len(bjobs), "mismatching_cases": stats["mismatches"],
         "crashed_functions": stats["crashed_functions"], "spec_vs_cpython_drift": n_drift,
-        "known_crash_pattern_shapes": {"generated": n_suspects, "compiled_in_own_module": len(suspects)},
-        "published_cases": {p: len(v) for p, v in published.items()} | {"switch": len(swcases)},
+        "repaired_crash_pattern_shapes": {"generated": n_suspects, "compiled_in_own_module": len(suspects)},
+        "published_cases": {p: len(v) for p, v in published.items()} | {"switch": len(swcases), "bool": n_bcases},
+        "bool_functions": {"compiled_each_with_use_switch_on_and_off": len(bfuncs), "subject_values_per_function": 256,
+                           "by_context": {k: sum(1 for f in bfuncs if f["rctx"] == k) for k in ("ret", "cond", "while", "stmt")},
+                           "by_typing": {k: sum(1 for f in bfuncs if f["typing"] == k) for k in sorted({f["typing"] for f in bfuncs})}},
+        "B3_bool_switch_statements_in_generated_C": b3b,
         "switch_functions": {"chains": sum(1 for f in swfuncs if f["kind"] == "chain"), "expression_contexts": sum(1 for f in swfuncs if f["kind"] == "expr"),
-                             "hazard_modules": len(hzfuncs)},
+                             "mixed_chains": len(hzfuncs)},
         "B3_switch_statements_in_generated_C": b3, "timing_s": timing,
         "rule": "one compiled function per shape (operator sequence x operand typing x context x leaf/name form; container kind x form x "
-                "subject typing; if/elif chain x subject typing x use_switch), called with every value tuple TLC enumerated for it; "
+                "subject typing; if/elif chain x subject typing x use_switch; boolean combination x subject typing x context x use_switch), "
+                "called with every value tuple TLC enumerated for it (bool family: every value of the 8-bit image of the subject type); "
                 "non-trivial = distinct (function, arguments) pairs whose expected outcome is a true or non-bool value, an exception or a selected arm "
-                "(not the plain False / no-arm bulk)",
+                "(not the plain False / no-arm bulk); bool family: the subject values next to a change of the expected outcome",
         "samples": samples,
     })
     rc = rep.finish()
@@ -545,6 +727,8 @@ def run(tier, seed):
                         assumptions=["W, nan and [] stand for objects with non-bool comparison results, for identity-without-equality and for unhashable operands",
                                      "which side's __eq__ a container scan calls, and hash/eq call counts, are not observed (not fixed by the language reference)",
                                      "C operands are only paired with Python operands or C operands of the same signedness; `is` is not applied to C operands",
+                                     "bool family: int / long / unsigned int / enum subjects are exercised on the 256 values of the scaled image (for unsigned "
+                                     "int 128..255 stand for 2**32-128..2**32-1), unsigned char and Py_UCS4 (0..255) on the real values",
                                      "the quick tier compiles a seeded sample of shapes; all value tuples of every compiled shape are replayed",
                                      "exception types are compared, not messages"],
                         violations=rep.n_violations())
@@ -571,7 +755,9 @@ def replay(path, seed):
             print("case %d: build failed (%s): %s" % (i, b.stage, b.errors[-600:]))
             bad += 1
             continue
-        if d["part"] == "switch":
+        if d["part"] == "bool":
+            call = ["RX", [name, [case["x"]]]]
+        elif d["part"] == "switch":
             call = ["RX", [name, [lc.subject_arg(d["fam"], d["typing"], case["x"])]]]
         elif d["part"] == "strin":
             call = ["RX", [name, [lc.xrec_arg(case["args"])]]]
